@@ -10,7 +10,7 @@ EVIDENCE_DIR = os.environ.get("LP_EVIDENCE_DIR", os.path.join(VERIF, "evidence")
 REPLAY_DIR = os.environ.get("LP_REPLAY_DIR", os.path.join(VERIF, "replays"))
 KNOWN = os.path.join(VERIF, "known_findings.json")
 
-QUICK = {"topup": 8, "vest": 30, "reserve": 16, "deploy": 4, "life": 40, "fy": 16, "chunks": 8, "perm": 1, "alloc": 12, "timeline": 6}
+QUICK = {"topup": 24, "vest": 60, "reserve": 40, "deploy": 8, "life": 120, "fy": 24, "chunks": 20, "perm": 2, "alloc": 30, "timeline": 16}
 THOROUGH = {"topup": 100, "vest": 300, "reserve": 200, "deploy": 40, "life": 600, "fy": 80, "chunks": 60, "perm": 8, "alloc": 120, "timeline": 60}
 
 
